@@ -29,7 +29,7 @@ SweepW     == {<<500, 600>>, <<500, 500>>}     \* with / without a width operand
 SweepAs    == {5, 300}
 SweepBs    == {7}
 NoRuns     == {1}
-FineSweepAs == {5 * Q + 1, 300 * Q}
+FineSweepAs == {5 * Q + 1, 60 * Q}
 FineSweepBs == {7 * Q + 2}
 FineSweepW  == {<<500 * Q, 600 * Q>>, <<500 * Q, 500 * Q>>}
 SweepInit  == Init /\ ng = 2
